@@ -2,6 +2,7 @@ CONSTANTS
   StalePath = TRUE
   AllSiblings = TRUE
   EnterOnFocusIn = TRUE
+  StaleTarget = FALSE
   Depth = 3
   Shapes = {"A"}
 SPECIFICATION Spec
